@@ -1,0 +1,7 @@
+//go:build !verif
+
+package bytecode
+
+// verifStep is the instruction hook of external verification harnesses. It
+// does nothing unless the package is built with the "verif" tag.
+func verifStep(*VM) {}
